@@ -10,7 +10,7 @@ git apply $M/patch.diff || { echo "patch does not apply"; exit 9; }
 PYTHONPATH=$WT /venv/bin/python $M/demo.py > /tmp/mut_demo_mut.log 2>&1; c1=$?
 t=$(PYTHONPATH=$WT /venv/bin/python -m pytest -q -p no:cacheprovider --timeout=900 2>&1 | tail -1)
 echo "demo clean=$c0 mutant=$c1 ; pytest: $t"
-cd /verif
+cd ${VERIF_DIR:-/verif}
 for P in "$@"; do
   s=$(date +%s)
   VF_REPO=$WT ./check $P --tier ${TIER:-quick} > /tmp/mut_$P.log 2>&1; rc=$?
